@@ -9,19 +9,19 @@ membership (`has`) of `set`/`erase`, keys, sums that vanish or agree, snapshots 
 namespace Hub.Model.Tbl
 variable {κ α : Type} [DecidableEq κ]
 
-theorem has_set (t : Tbl κ α) (k k' : κ) (v : α) : has (set t k v) k' = (decide (k = k') || has t k') := by
+theorem has_set_B (t : Tbl κ α) (k k' : κ) (v : α) : has (set t k v) k' = (decide (k = k') || has t k') := by
   unfold has; rw [get_set]; by_cases h : k = k' <;> simp [h]
 
-theorem has_erase (t : Tbl κ α) (k k' : κ) : has (erase t k) k' = (!decide (k = k') && has t k') := by
+theorem has_erase_B (t : Tbl κ α) (k k' : κ) : has (erase t k) k' = (!decide (k = k') && has t k') := by
   unfold has; rw [get_erase]; by_cases h : k = k' <;> simp [h]
 
-theorem has_set_iff (t : Tbl κ α) (k k' : κ) (v : α) : has (set t k v) k' = true ↔ k = k' ∨ has t k' = true := by
-  rw [has_set]; simp
+theorem has_set_iff_B (t : Tbl κ α) (k k' : κ) (v : α) : has (set t k v) k' = true ↔ k = k' ∨ has t k' = true := by
+  rw [has_set_B]; simp
 
-theorem has_erase_iff (t : Tbl κ α) (k k' : κ) : has (erase t k) k' = true ↔ k ≠ k' ∧ has t k' = true := by
-  rw [has_erase]; simp
+theorem has_erase_iff_B (t : Tbl κ α) (k k' : κ) : has (erase t k) k' = true ↔ k ≠ k' ∧ has t k' = true := by
+  rw [has_erase_B]; simp
 
-theorem has_of_get {t : Tbl κ α} {k : κ} {v : α} (h : get t k = some v) : has t k = true := by
+theorem has_of_get_B {t : Tbl κ α} {k : κ} {v : α} (h : get t k = some v) : has t k = true := by
   unfold has; rw [h]; rfl
 
 theorem has_false_of_get {t : Tbl κ α} {k : κ} (h : get t k = none) : has t k = false := by
@@ -39,7 +39,7 @@ theorem mem_keys_of_mem {t : Tbl κ α} {k : κ} {v : α} (h : (k, v) ∈ t) : k
   List.mem_map.mpr ⟨(k, v), h, rfl⟩
 
 omit [DecidableEq κ] in
-theorem nodup_keys {t : Tbl κ α} (h : Nodup t) : t.keys.Nodup := h
+theorem nodup_keys_B {t : Tbl κ α} (h : Nodup t) : t.keys.Nodup := h
 
 /-- A sum all of whose terms vanish. -/
 theorem sumKV_eq_zero (f : κ → α → Int) (t : Tbl κ α) (h : ∀ k v, (k, v) ∈ t → f k v = 0) : sumKV f t = 0 := by
@@ -125,6 +125,6 @@ theorem mem_dueIds {enc : Time → Nat → Bytes} {q : Tbl (Time × Nat) Unit} {
 theorem nodup_dueIds (enc : Time → Nat → Bytes) {q : Tbl (Time × Nat) Unit} (t : Time) (h : Tbl.Nodup q) :
     (dueIds enc q t).Nodup := by
   unfold dueIds
-  exact nodup_sortKeys _ (List.Nodup.filter _ (Tbl.nodup_keys h))
+  exact nodup_sortKeys _ (List.Nodup.filter _ (Tbl.nodup_keys_B h))
 
 end Hub.Model
